@@ -21,6 +21,7 @@ CONSTANTS
   Qs <- K_Q2
   Vs <- P_V1
   As <- One0
+  QScales <- QS1
   Gravs <- K_G1
   DisSets <- P_Dis
   TenK <- P_K1
@@ -30,6 +31,7 @@ CONSTANTS
   TenZero <- NoTz
   SpPairs <- NoSpS
   SpArms <- One0
+  Sleeps <- NoTz
   StiffPolys <- P_KP1
   DampPolys <- P_DP1
   TenKPolys <- P_TKP1
